@@ -1082,7 +1082,7 @@ class Sym:
         if n.get("ty") == "!":
             if self.is_effect(callee, args, n, st):
                 self.add_effect(st, "call", callee, args, n, None)
-            st.done = "diverge"
+            st.done = ("panic", n.get("sp"), callee or trait_callee or "diverges")      # panic!/unreachable!/process::abort ..
             return [(st, None)]
         body_fn = self.body_for(callee)
         if body_fn is None:
